@@ -128,8 +128,9 @@ Section Text.
     Z.of_nat (length (concat (map native_rows (map table_of l)))) = zsum (map nrows l).
   Proof.
     induction l as [|c t IH]; [reflexivity|]. cbn [map concat]. rewrite app_length, Nat2Z.inj_add, IH.
-    unfold native_rows at 1, table_of at 1. cbn [tdt trows]. rewrite !map_length.
-    unfold zsum, nrows. cbn [fold_right]. reflexivity.
+    assert (L : length (native_rows (table_of c)) = length (c_rows c)).
+    { unfold native_rows, table_of. cbn [tdt trows]. rewrite !map_length. reflexivity. }
+    rewrite L. unfold zsum, nrows. cbn [map fold_right]. reflexivity.
   Qed.
 
   (* The file a history built in text form: its header gives total / dtype / user header; the bytes
